@@ -129,6 +129,43 @@ func check(c Case) (o ev.Outcome) {
 			}
 		}
 	}
+	// copies that carry uninterpreted statements (must, when, status, reference, presence, extensions) of their
+	// own, or received some from the uses/augment statement that placed them
+	ownSt, placedSt := false, false
+	for _, t := range trees {
+		for _, x := range yref.Paths(t) {
+			if x.CopySteps > 0 && (len(x.Extra) > 0 || len(x.Exts) > 0) {
+				ownSt = true
+			}
+		}
+	}
+	for _, m := range c.Set.Modules {
+		var walk func(b *ymodel.Body)
+		walk = func(b *ymodel.Body) {
+			for _, g := range b.Groupings {
+				walk(&g.Body)
+			}
+			for _, n := range b.Nodes {
+				if n.Kind == ymodel.KUses && len(n.Extras) > 0 {
+					placedSt = true
+				}
+				walk(&n.Body)
+			}
+		}
+		walk(&m.Body)
+		for _, a := range m.Augments {
+			if len(a.Extras) > 0 {
+				placedSt = true
+			}
+			walk(&a.Body)
+		}
+	}
+	if ownSt {
+		o.Class("copies-with-constraint-or-extension-statements")
+	}
+	if placedSt {
+		o.Class("uses-or-augment-with-statements-of-its-own")
+	}
 	if maxSame >= 2 {
 		o.Class("grouping-used-twice-or-more")
 	}
@@ -165,7 +202,7 @@ func check(c Case) (o ev.Outcome) {
 		if c.Stage2 != "" {
 			pre = "C06/after-" + c.Stage2
 		}
-		schema.CompareModules(&o, c.Set, obs, trees, canon.DiffOpts{Types: true, NS: true, Defaults: c.Stage2 != "deviation", SkipImplicitCaseNS: true, IfFeatures: true}, pre, "instance-equals-expansion")
+		schema.CompareModules(&o, c.Set, obs, trees, canon.DiffOpts{Types: true, NS: true, Defaults: c.Stage2 != "deviation", SkipImplicitCaseNS: true, IfFeatures: true, Stmts: true}, pre, "instance-equals-expansion")
 		if len(o.Violations) == 0 {
 			if s := sharedEntries(obs.MS); s != "" {
 				o.Violate("independent-copies", "C06/shared-node-object", "%s", s)
@@ -180,6 +217,8 @@ func gen(t *rapid.T) Case {
 	o.Typedefs = rapid.Bool().Draw(t, "typedefs")
 	o.IfFeatures = true
 	schema.AugmentIfFeatures = true
+	o.Extras = true
+	schema.AugmentExtras = true
 	set, _ := schema.Generate(t, o)
 	c := Case{Set: set}
 	switch rapid.IntRange(0, 3).Draw(t, "stage2") {
